@@ -55,6 +55,14 @@ def run_case(case):
     rows, cols = SIZES_R[case["rows"] % len(SIZES_R)], SIZES_C[case["cols"] % len(SIZES_C)]
     connect = not case.get("no_server", False)
     rx = RXS[case.get("rx", 0) % len(RXS)] or RX
+    gpsd = None
+    if case.get("gpsd_server") and connect:
+        # a gpsd daemon that completes the handshake and then says nothing more ("silent") or keeps
+        # reporting fixes ("talking"); quitting must not wait for it
+        from feed import FakeGpsd
+        gpsd = FakeGpsd()
+        gpsd.start()
+        opts = [o for o in opts if o != "--gpsd"] + ["--gpsd", "--gpsd-ip", gpsd.ip]
     ft = None if any(o.startswith("--filter-time") for o in opts) else (1 if case.get("expiry") else None)
     s = RadarSession("c17", rows=rows, cols=cols, lat=rx[0], lon=rx[1], opts=opts, connect=connect, filter_time=ft)
     try:
@@ -79,6 +87,11 @@ def run_case(case):
 
         if connect and not check("start"):
             return fails
+        if gpsd is not None and gpsd.ready.wait(8.0):
+            try:
+                gpsd.report(RX[0] + 0.01, RX[1] + 0.01)
+            except OSError:
+                pass
         if connect:
             for st in case["steps"]:
                 step_no += 1
@@ -130,10 +143,20 @@ def run_case(case):
                         time.sleep(0.4)
                 elif k == "wait_expiry":
                     time.sleep(1.25)
+                if gpsd is not None and case.get("gpsd_server") == "talking" and gpsd.ready.is_set():
+                    try:
+                        gpsd.report(RX[0] + 0.001 * step_no, RX[1])
+                    except OSError:
+                        pass
                 if not check(f"{step_no} {st}"):
                     return fails
         else:
             time.sleep(0.3)
+            # keys the waiting screen does not know, singly and in long bursts (every one is a pass
+            # through the connection loop), and a resize
+            for burst in case.get("wait_keys", []):
+                s.p.write(b"".join(key(KEYSET[x % len(KEYSET)]) for x in burst))
+                s.p.pump(0.15)
             if not s.alive():
                 fails.append(("C17/crash/start_no_server", f"radar terminated while waiting for a connection: {s.stderr()[-300:]}"))
                 return fails
@@ -159,6 +182,8 @@ def run_case(case):
                 fails.append((f"C17/quit/{'mouse' if 'mouse' in pr else 'cursor'}/{tag}", f"quit {ctx}: {pr}"))
     finally:
         s.close()
+        if gpsd is not None:
+            gpsd.close()
     return fails
 
 
@@ -259,6 +284,12 @@ def burst_cases():
         out.append(dict(base, expiry=True, steps=[["feed", 3, 1], ["feed", 3, 1], ["key", tab], ["wait_expiry"], ["wait_expiry"]] + [["key", t] for t in (3, 2, 0, 1, 4, 3)] + [["feed", 2, 1], ["key", 3], ["wait_expiry"], ["wait_expiry"], ["key", 2], ["key", 3]]))
     for i in range(3, len(RXS)):
         out.append(dict(base, rx=i, steps=[["feed", 3, 1], ["feed_tab", 3, 1, 3], ["feed_tab", 2, 1, 0], ["key", 2], ["key", 7], ["key", 10]]))
+    # quit (q and ctrl-c) while a gpsd daemon is connected and silent / talking; 150 unknown keys in
+    # one burst (and a resize) on the waiting screen with nobody listening
+    for g in ("silent", "talking"):
+        for q in (0, 1):
+            out.append(dict(base, gpsd_server=g, quit=q, steps=[["feed", 2, 1], ["key", 0], ["key", 2]]))
+    out.append(dict(base, no_server=True, wait_keys=[[18] * 150, [5, 30, 44], [21] * 150, [13] * 150], steps=[]))
     # a crowd: 400 positioned aircraft, every tab, selection keys far down the table, zoom, a small
     # terminal, and all of them expiring at once
     walk = [["key", 2]] + [["paste", [7] * 6]] * 8 + [["key", 10], ["key", 0], ["key", 11], ["key", 12], ["key", 1], ["key", 3], ["key", 4], ["resize", 3, 3], ["key", 2], ["key", 7], ["resize", 7, 7]]
@@ -304,6 +335,8 @@ def worker(args):
         "locations": st.one_of(st.none(), st.just(["(home,52.1,4.2)"]), st.just(["(a,51.0,3.0)", "(b,53.5,6.5)"])),
         "scale": st.one_of(st.none(), st.sampled_from([0.12, 0.01, 5.0, 1e-9, 1e9, 0.0, -1.0, -0.12, "nan", "inf"])),
         "rx": st.integers(0, len(RXS) - 1),
+        "wait_keys": st.lists(st.one_of(st.lists(st.integers(5, len(KEYSET) - 1), min_size=1, max_size=4), st.integers(5, 30).map(lambda k: [k] * 150)), max_size=3),
+        "gpsd_server": st.sampled_from([None, None, None, None, "silent", "talking"]),
     })
     cli = st.fixed_dictionaries({"cli": st.just(True), "opt": st.sampled_from(sorted(BAD_VALUES) + ["--locations", "--locations"]), "val": st.integers(0, 19), "extra_location": st.booleans()})
     # (one_of over strategies of very different size favours the small one: pick the kind explicitly;
